@@ -41,16 +41,6 @@ add("KF-cholesky-complex", ["C09"],
     {"prim": "cholesky", "args": {"0": {"__re__": "c.*"}}, "symptom": ["wrong_value", "not_adjoint"]},
     case("cholesky", [SPD(3, True)], ns="linalg", domain="herm"))
 
-add("KF-pinv-complex", ["C09"],
-    "np.linalg.pinv of a complex matrix: the rule uses plain transposes where conjugate transposes are needed",
-    {"prim": "pinv", "args": {"0": {"__re__": "c.*"}}, "symptom": ["wrong_value", "not_adjoint"]},
-    case("pinv", [C(3, 2)], ns="linalg"))
-
-add("KF-slogdet-complex-sign", ["C09"],
-    "np.linalg.slogdet of a complex matrix: the sign output det/|det| varies smoothly with a complex argument but the rule ignores its cotangent",
-    {"prim": "slogdet", "args": {"0": {"__re__": "c.*"}}, "tags": {"__has__": "both_outputs"}, "symptom": ["wrong_value", "not_adjoint"]},
-    case("slogdet", [W(2, True)], ns="linalg", tags=["both_outputs"]))
-
 add("KF-order-A-fortran-layout", ["C01", "C02", "C09"],
     "np.reshape / np.ravel / ndarray.flatten with order='A' on an argument that is Fortran-contiguous (not C-contiguous): NumPy reads the argument in Fortran order, but the VJP reshapes the (C-ordered) cotangent back with order='A' (= C order) and the JVP applies order='A' to the tangent's own layout; the derivative entries land at permuted positions. A repair needs the argument's layout inside both rules (custom JVP instead of 'same')",
     {"prim": ["reshape", "ravel", "flatten"], "layout": "F", "kw": {"order": {"__re__": "str:[Aa]"}}, "symptom": ["wrong_value", "not_adjoint", "modes_disagree"]},
@@ -107,6 +97,9 @@ fixed("FX-solve-broadcast-a", ["C01", "C05", "C09"], "efdfd7a", "np.linalg.solve
 fixed("FX-solve-vec-b-batched-a", ["C01", "C09"], "d6c80b9", "np.linalg.solve(a, b) with a stack of matrices a and one vector b: the adjoint solve read the (batch, M) cotangent as a single matrix (silently wrong when batch == M, an exception otherwise)", case("solve", [onp.stack([W(2), W(2).T + 0.3]), A(2)], ns="linalg", argnum=1, tags=["vec_b_batched_a"]))
 fixed("FX-astype-int-passes-gradient", ["C14"], "74f8075", "x.astype(int) / astype(bool) (integer-valued, piecewise constant) let the cotangent through unchanged in reverse mode: d/dx sum(x*x.astype(int)) returned x.astype(int)+x instead of x.astype(int)", {"kind": "composition", "q": "astype_int", "mode": "rev"})
 fixed("FX-eigh-zero-traced-cotangent", ["C07"], "b9b4a66", "second derivatives through np.linalg.eigh at a point where the eigenvector cotangent is exactly zero but varies with the input (squared residual about the evaluation point): grad_eigh skipped the eigenvector term (anp.any on a traced value) and the Hessian lost J'J of the eigenvectors", dict(case("eigh", [SPD(3) + onp.diag([0.0, 2.0, 5.0])], ns="linalg", tags=["values+vectors"], gauge="eigvec"), outer="quad0"))
+fixed("FX-trace-id-worker-thread-inside-trace", ["C08"], "f25b59d", "a nested differentiation evaluated in a worker thread started inside the enclosing traced function got the same trace id as the enclosing trace (per-thread counter from 8403d98 restarts at 0): derivatives silently confused; ids now come from one ever-increasing counter", {"spec": {"depth": 2, "ops": ["grad", "grad"], "masks": [0, 1], "template": 2, "threaded": True, "eseed": [0, 0, 9161]}})
+fixed("FX-pinv-complex", ["C09"], "0ffe893", "np.linalg.pinv of a complex matrix: the rule used plain transposes / the unconjugated cotangent where the differential involves the conjugate transpose", case("pinv", [C(3, 2)], ns="linalg"))
+fixed("FX-slogdet-complex-sign", ["C09"], "9b5e67c", "np.linalg.slogdet of a complex matrix: the cotangent of the sign output det/|det| was ignored", case("slogdet", [W(2, True)], ns="linalg", tags=["both_outputs"]))
 fixed("FX-where-jvp-broadcast", ["C05", "C02"], "423a953", "forward-mode np.where returned a tangent with the branch's shape/kind instead of the output's", case("where", [cc, A(3), A(2, 2, 3)], argnum=1), witness_mode="fwd")
 
 out = {"_comment": "Known findings: genuine defects of HIPS/autograd that are recorded rather than repaired (status open) and defects repaired by a 'fix:' commit (status fixed; fixed entries suppress nothing - their witnesses are re-run on every check and a failing one is an ordinary VIOLATION). `match` is a conjunction over fields of the case signature (lists = any of; {__re__}: regex; {__has__}: list membership); never a seed, hash or random value. Read-only at run time.", "findings": F}
